@@ -50,6 +50,7 @@ def errMsg : FErr → String
   | .codec .stackEmpty => "UB:stack-top-on-empty"
   | .indexRange => "err:indexRange"
   | .headerWrap => "UB:header-wrap"
+  | .seqTooLarge => "err:seqTooLarge"
   | .bankIndex => "UB:bank-index"
   | .riff _ => "exc:riff"
 
